@@ -48,7 +48,7 @@ func TestVerifC13Child(t *testing.T) {
 	}
 
 	el := &vc13ErrLog{}
-	u, err := vc13NewUnits(os.Getenv(vc13EnvDir), os.Getenv(vc13EnvURL), el, vc13ChildTimeout, true, vc13CrashHashMax)
+	u, err := vc13NewUnits(os.Getenv(vc13EnvDir), os.Getenv(vc13EnvURL), el, vc13ChildTimeout, true, vc13CrashHashMax, "")
 	if err != nil {
 		fmt.Printf("VC13-ERR %v\n", err)
 		os.Exit(3)
@@ -187,7 +187,7 @@ func TestVerifC13CrashPoints(t *testing.T) {
 	rapid.Check(t, func(t *rapid.T) {
 		k := vc13GenKill(t)
 
-		w := vc13NewWorld(t, st, msgs, baseDir, true, vc13ChildTimeout, vc13CrashHashMax)
+		w := vc13NewWorld(t, st, msgs, baseDir, true, vc13ChildTimeout, vc13CrashHashMax, false)
 		defer w.close()
 
 		tmpDir, err := os.MkdirTemp(baseDir, "tmp-")
